@@ -198,7 +198,7 @@ package casket
 //@   modifies ghost:hooksPurged
 //@   ensures hooksPurged == 1
 //@ func restoreEventHooks
-//@   requires [restores_the_saved_copy] m == savedHooks
+//@   requires [restores_the_saved_copy] m == savedHooks && m != nil
 //@   modifies ghost:hooksPurged
 //@   ensures hooksPurged == 0
 //@ func (*Instance).Restart
